@@ -220,8 +220,8 @@ func (fr *Frame) define(v ssa.Value, t Term) Term {
 // ---------- obligations ----------
 
 func (g *Gen) oblige(kind, name, reach, goal, src string, side bool) {
-	if goal == "true" {
-		// still count trivially true goals? they carry no information; skip
+	if goal == "true" && kind != "unblock" {
+		// trivially true goals carry no information; skip (unblock goals are kept: they are the proof rule's instances)
 		return
 	}
 	g.obls = append(g.obls, &Obligation{Name: name, Kind: kind, Func: g.fnName, Prefix: g.sc.Len(), Reach: reach, Goal: goal, Src: src, Side: side})
